@@ -26,7 +26,9 @@ HUGE = 1000000
 KEY_SKIP = "cursor-beyond-disk-skips-newest-disk-entry"
 KEY_PANIC = "limit-offset-sum-negative-panic"
 KEY_ESC = "term-search-misses-json-escaped-host-on-disk"
-SIG_KEYS = {"skip": KEY_SKIP, "esc": KEY_ESC}
+KEY_FOLD = "substring-term-misses-capital-s-k-inside-client-name"
+KEY_HID = "scan-window-ending-on-hidden-record-ends-paging"
+SIG_KEYS = {"skip": KEY_SKIP, "esc": KEY_ESC, "fold": KEY_FOLD, "hid": KEY_HID}
 
 ACTIONS_MC = ["DoRec", "DoEnc", "AutoEnc", "DoApp", "DoAppFails", "DoRotate", "DoRotCheck", "DoClear", "DoConf", "DoRestart", "DoSearch"]
 ACTIONS_GEN = ["rec", "enc", "app", "appfail", "autoflush", "autoflushfail", "rotate", "rotcheck", "clear", "conf", "restart"]
@@ -61,7 +63,7 @@ def window_ok(older, limit, universe, got):
 
 
 def classify_query(q, got):
-    """q: the spec's table row <<older, limit, offset, term, status, class, data, oldest, sigs, scan>>;
+    """q: the spec's table row <<older, limit, offset, term, status, class, data, oldest, sigs, scan, alts>>;
     got: the abstracted real reply.  Returns a known-finding key or None."""
     older, limit, offset, cls, sigs = q[0], q[1], q[2], q[5], q[8]
     if got.get("st") == "panic" and "slice bounds out of range" in (got.get("msg") or "") \
@@ -73,6 +75,14 @@ def classify_query(q, got):
         if cls == "exact" and got.get("st") == "ok" and list(got.get("data") or []) == list(data) \
                 and got.get("oldest") == oldest:
             return SIG_KEYS.get(name)
+        if cls == "window" and name == "hid":
+            # An empty page saying "end", selected entries still to come, and a
+            # hidden on-disk record between the cursor and the next of them.
+            universe = q[6]
+            if got.get("st") == "ok" and not got.get("data") and got.get("oldest") == 0 and universe \
+                    and any((older == 0 or h < older) and h > universe[0] for h in data):
+                return KEY_HID
+            continue
         if cls == "window" and window_ok(older, limit, data, got):
             return SIG_KEYS.get(name)
     return None
@@ -101,6 +111,8 @@ def model_check(ctx, res):
         r = ctx.tlc("QueryLog", cfg, workers=6, timeout=170 if ctx.quick else 620, coverage=True)
         res["mc"] = r
         res["mc_cov"] = coverage_counts(r["out"])
+        # The same invariants with the ignore list changing (small universe).
+        ctx.tlc("QueryLog", "QueryLog.mcig.cfg", workers=4, timeout=300)
     except Exception as e:  # re-raised by the main thread
         res["err"] = e
 
@@ -148,7 +160,7 @@ def build_graph(vectors):
         groups.append({"k": "g", "src": s, "act": act, "args": json.loads(args), "dsts": d})
     inits = [ids[k] for k, st in states.items()
              if st["ck"] == 0 and not st["mem"] and not st["cur"] and not st["rot"] and not st["batch"]
-             and not st["fp"] and st["en"] and not st["an"]]
+             and not st["fp"] and st["en"] and not st["an"] and not st["ig"]]
     return table, rows, groups, sorted(inits)
 
 
@@ -282,20 +294,33 @@ def run(ctx):
 
 
 def _run_bindings(ctx):
-    # ---------------- direction A
-    gen = ctx.tlc("QueryLog", "QueryLog.gen.cfg", workers=4, timeout=400)
-    table, rows, groups, inits = build_graph(gen["vectors"])
-    if table is None or len(groups) < 1000 or not inits:
-        raise vlib.Inconclusive("edge generation produced too little: %d groups" % len(groups))
-    by_act = {}
-    for g in groups:
-        by_act[g["act"]] = by_act.get(g["act"], 0) + 1
-    nstates_obs = sum(1 for r in rows if r["obs"])
-    ctx.log("graph: %d states (%d with observation tables), %d edge groups, %d initial states" % (
-        len(rows), nstates_obs, len(groups), len(inits)))
-    budget = 4500 if ctx.quick else 0
-    res, summ = run_walks(ctx, table, rows, groups, inits, budget, workers=5 if ctx.quick else 8)
-    ctx.log("walks: %s" % json.dumps({k: summ[k] for k in ("walks", "steps", "queries", "covered", "groups", "bad", "flaky", "discards")}))
+    # ---------------- direction A: the main graph, and a smaller one in which the ignore list changes
+    plan = [("QueryLog.gen.cfg", 3700 if ctx.quick else 0), ("QueryLog.genig.cfg", 800 if ctx.quick else 0)]
+    res, by_act, table = [], {}, None
+    summ = {k: 0 for k in ("walks", "steps", "queries", "covered", "groups", "bad", "flaky", "discards", "transit", "unobservable")}
+    nrows = nstates_obs = nontrivial = 0
+    samples_graph = []
+    for cfg, budget in plan:
+        gen = ctx.tlc("QueryLog", cfg, workers=4, timeout=400)
+        table, rows, groups, inits = build_graph(gen["vectors"])
+        if table is None or len(groups) < 1000 or not inits:
+            raise vlib.Inconclusive("edge generation produced too little (%s): %d groups" % (cfg, len(groups)))
+        for g in groups:
+            by_act[g["act"]] = by_act.get(g["act"], 0) + 1
+        nrows += len(rows)
+        nstates_obs += sum(1 for r in rows if r["obs"])
+        nontrivial += sum(1 for g in groups if len(g["dsts"]) > 1 or g["dsts"][0] != g["src"])
+        ctx.log("graph %s: %d states, %d edge groups, %d initial states" % (cfg, len(rows), len(groups), len(inits)))
+        res1, summ1 = run_walks(ctx, table, rows, groups, inits, budget, workers=5 if ctx.quick else 8)
+        ctx.log("walks: %s" % json.dumps({k: summ1[k] for k in ("walks", "steps", "queries", "covered", "groups", "bad", "flaky", "discards")}))
+        for r in res1:
+            r["table"] = table
+        res += res1
+        for k in summ:
+            summ[k] += summ1[k]
+        samples_graph += [groups[0], groups[len(groups) // 2],
+                          {"state": rows[len(rows) // 2]["st"], "table_rows": rows[len(rows) // 2]["obs"][:3]}]
+        del rows, groups, gen
 
     sample_bad = []
     nbad = 0
@@ -308,16 +333,16 @@ def _run_bindings(ctx):
             break
         if r.get("what") == "query":
             key = classify_query(r["q"], r["got"])
-            rec = {"dir": "A", "what": "query", "walk": r["walk"], "states": r["states"], "table": table,
+            rec = {"dir": "A", "what": "query", "walk": r["walk"], "states": r["states"], "table": r["table"],
                    "q": r["q"], "got": r["got"], "state": r["state"]}
             ctx.disagreement(key, rec, describe_query(r["q"], r["got"]))
         elif r.get("what") == "state":
-            rec = {"dir": "A", "what": "state", "walk": r["walk"], "states": r["states"], "table": table,
+            rec = {"dir": "A", "what": "state", "walk": r["walk"], "states": r["states"], "table": r["table"],
                    "act": r["act"], "args": r["args"], "src": r["src"], "want": r["want"], "got": r["got"]}
             ctx.disagreement(None, rec, "after %s %s from %s the real log is %s, the spec admits %s" % (
                 r["act"], json.dumps(r["args"]), json.dumps(r["src"]), json.dumps(r["got"]), json.dumps(r["want"])))
         else:
-            rec = {"dir": "A", "what": "payload", "detail": {k: v for k, v in r.items() if k != "kind"}}
+            rec = {"dir": "A", "what": "payload", "detail": {k: v for k, v in r.items() if k not in ("kind", "table")}}
             ctx.disagreement(None, rec, "payload of entry %s (shape %s) %s: %s" % (
                 r.get("id"), r.get("shape"), r.get("pkind"), (r.get("diff") or "served JSON differs between %s and %s" % (r.get("first_at"), r.get("now_at")))))
         if len(sample_bad) < 2 and r.get("what") == "query":
@@ -425,7 +450,6 @@ def _run_bindings(ctx):
         raise vlib.Inconclusive("no search line suitable for the corrupted-trace demonstration")
 
     exhaustive = summ["covered"] == summ["groups"]
-    nontrivial = sum(1 for g in groups if len(g["dsts"]) > 1 or g["dsts"][0] != g["src"])
     cov = {
         "traces_validated_against_impl": summ["walks"] + nhist,
         "evaluations": summ["queries"] + summ["steps"] + tlines,
@@ -434,7 +458,7 @@ def _run_bindings(ctx):
                 "handler (reply compared with the spec's table row); non-trivial = an edge group whose destination differs "
                 "from its source.  direction B: one evaluation per trace line validated by TraceQueryLog.tla",
         "edge_groups": summ["groups"], "edge_groups_covered": summ["covered"], "edges_by_action": by_act,
-        "graph_states": len(rows), "states_with_observation_table": nstates_obs,
+        "graph_states": nrows, "states_with_observation_table": nstates_obs,
         "walks": summ["walks"], "steps": summ["steps"], "transit_steps": summ["transit"],
         "steps_state_unobservable": summ["unobservable"],
         "requests_compared": summ["queries"], "walks_discarded": summ["discards"], "flaky": summ["flaky"] + tflaky,
@@ -444,7 +468,7 @@ def _run_bindings(ctx):
         "truncated_by_known_finding": 0,
         "binding_demo": binding_demo,
         "exhaustive": exhaustive,
-        "samples": [groups[0], groups[len(groups) // 2], {"state": rows[len(rows) // 2]["st"], "table_rows": rows[len(rows) // 2]["obs"][:3]}]
+        "samples": samples_graph[:4]
                    + sample_bad + [{"trace_line": s} for s in tsamples],
     }
     return cov
